@@ -299,3 +299,107 @@ func volumeRun(c *core.Ctx, w *core.W, e *eco.Eco, domain func(string) bool, cmp
 }
 
 var _ = rand.IntN
+
+// volumeRanges is the range-side volume workload (C02): V distinct single-comparator ranges (every comparator spelling
+// of the table in turn, bound = counter template) are parsed and KEPT together with their bounds; afterwards kept
+// ranges are asked about the kept bounds next to their own (i-1, i, i+1) and the answers are compared with the truth
+// table over the implementation's own Compare. Bound caches, parsed-range memo tables and recycled range objects are
+// correct until they fill.
+func volumeRanges(c *core.Ctx, w *core.W, e *eco.Eco, syn cmpSyntax, key string, V int) []core.Violation {
+	r := c.Rand("volume-ranges", e.Name, key)
+	var out []core.Violation
+	perRule := map[string]int{}
+	sent := &Pool{Eco: e}
+	seen := map[string]bool{}
+	for tries := 0; len(sent.Strs) < 60 && tries < 200; tries++ {
+		for _, s := range gen.Cluster(e.Name, r) {
+			if len(sent.Strs) < 60 && boundOK(e.Name, s) && embeddable(s) {
+				sent.Add(s, seen)
+			}
+		}
+	}
+	tpls := volTemplates(e, func(s string) bool { return boundOK(e.Name, s) }, sent.Strs, r, 2)
+	if len(tpls) == 0 {
+		w.Count("volume_no_template:"+e.Name, 1)
+		return nil
+	}
+	var spell []string
+	for s := range syn.ops {
+		spell = append(spell, s)
+	}
+	sortStrings(spell)
+	per := V / len(tpls)
+	for ti, t := range tpls {
+		vers := make([]eco.Ver, per)
+		rngs := make([]eco.Rng, per)
+		text := func(i int) (string, string) {
+			sp := spell[i%len(spell)]
+			txt := sp + t.at(i)
+			if syn.listOnly {
+				txt += ","
+			}
+			return txt, sp
+		}
+		for i := 0; i < per; i++ {
+			if v, err, pn := e.SafeNewVersion(t.at(i)); pn == nil && err == nil && v != nil {
+				vers[i] = v
+			}
+			txt, _ := text(i)
+			if g, err, pn := e.SafeNewRange(txt); pn == nil && err == nil && g != nil {
+				rngs[i] = g
+				if vers[i] != nil { // a membership call right away, so that call-time tables fill as well
+					eco.SafeContains(g, vers[i])
+				}
+			}
+		}
+		w.Count("volume_distinct_ranges_parsed_and_kept", int64(per))
+		w.Count("events:NewVersionRange", int64(per))
+		sample := c.Scale(30000, 200000)
+		for n := 0; n < sample; n++ {
+			i := 1 + r.IntN(per-2)
+			if n < 2048 {
+				i = 1 + n%(per-2) // the oldest objects always
+			}
+			if rngs[i] == nil {
+				continue
+			}
+			txt, sp := text(i)
+			for _, j := range []int{i - 1, i, i + 1} {
+				if vers[j] == nil || vers[i] == nil {
+					continue
+				}
+				cv, pn := eco.SafeCompare(vers[j], vers[i])
+				if pn != nil {
+					continue
+				}
+				want := sat(syn.ops[sp], cv)
+				got, pn := eco.SafeContains(rngs[i], vers[j])
+				w.Count("evaluations", 1)
+				w.Count("volume_range_memberships", 1)
+				w.NT(core.Hash64("volume-range", e.Name, itoa(ti), sp, itoa(j-i), itoa(i%97)))
+				if pn != nil || got != want {
+					args := []string{txt, t.at(j), sp, t.at(i)}
+					if vs := evalC02(c, e, "cmp-range", args); len(vs) > 0 {
+						for _, v := range vs {
+							if perRule["pair:"+v.Rule+sp] < 2 {
+								perRule["pair:"+v.Rule+sp]++
+								out = append(out, v)
+							}
+						}
+						continue
+					}
+					if perRule[sp] < 2 {
+						perRule[sp]++
+						g := "panic"
+						if pn == nil {
+							g = b2s(got)
+						}
+						out = append(out, core.Violation{Eco: e.Name, Op: "volume-ranges", Args: []string{key, itoa(V), txt, t.at(j)}, Rule: "after-volume:kept-range-answers-differently", Got: g, Want: b2s(want),
+							Detail: "the kept range object disagrees with the truth table while a fresh parse of the same range agrees"})
+					}
+				}
+			}
+		}
+	}
+	return out
+}
